@@ -106,12 +106,14 @@ Proof.
   unfold vtt_has_ruby in Hr. simpl in Hr.
   assert (Inl : exists r, spans open (KP :: tail) = KSpan :: r \/ spans open (KP :: tail) = KP :: r) by (destruct open; simpl; eauto).
   destruct e; simpl in Hr; try discriminate; simpl in Hs; simpl.
+  - (* <rt> without ruby: a span *)
+    assert (P : push_result (spans open (KP :: tail)) ChSpan = None) by (destruct open; reflexivity).
+    rewrite P. apply (IH (S open) tail); assumption.
   - (* span *)
     assert (P : push_result (spans open (KP :: tail)) ChSpan = None) by (destruct open; reflexivity).
     rewrite P. apply (IH (S open) tail); assumption.
   - (* timestamp *)
-    assert (P : push_result (spans open (KP :: tail)) ChSpan = None) by (destruct open; reflexivity).
-    rewrite P. apply (IH (S open) tail); assumption.
+    apply (IH open tail); assumption.
   - (* end tag *)
     destruct open as [|d]; [discriminate|]. simpl. apply (IH d tail); assumption.
   - (* data *)
